@@ -323,7 +323,8 @@ def build_runs(ctx, struct, rt):
     reps = 1 if ctx.quick() else 4
     for c in struct:
         heavy = c["grp"] == "cut" and c["p"]["n"] > 16
-        for _ in range(1 if heavy else reps):
+        light = c["grp"] in ("action", "event", "magic", "port")   # few classes: more field values each
+        for _ in range(1 if heavy else (reps * 8 if light else reps)):
             groups.setdefault("parse:" + c["grp"] + (":" + c["kind"] if c["grp"] == "trunc" else ""), []) \
                 .append(concretise_struct(pk, c))
     for c in rt:
@@ -548,9 +549,11 @@ def run(ctx):
         "reply_peer_counts_v4": len(o["reply_peers"][4]), "reply_peer_counts_v6": len(o["reply_peers"][6]),
         "bytes_compared": o["bytes"], "selftest_mutations": len(SELFTESTS) if not fails else 0,
     })
+    sampled = set()
     for r in runs:
-        if r["group"] in ("parse:event", "req:announce", "resp:announce", "parse:cut"):
-            c = r["cases"][0]
+        if r["group"] in ("parse:event", "req:announce", "resp:announce", "parse:cut") and r["group"] not in sampled:
+            sampled.add(r["group"])
+            c = r["cases"][-1]
             s = {k: c[k] for k in ("ev", "gen", "kind", "fam", "max") if k in c}
             if "bytes" in c:
                 s["bytes_len"] = len(c["bytes"])
